@@ -179,6 +179,23 @@ def directed(ctx, exe):
                 bad.append(({"kind": "ledger", "class": "leak-after-new-free", "type": typ},
                             "%s %dx%d: %d blocks still allocated after vnacal_new_free (parameters made: %d)"
                             % (typ, r, c, lives[1] - lives[0], s.npar), s.text(), ""))
+    # rectangular S on a diagonal type: the model (AddModel.add_common) predicts that every argument
+    # check passes and that build_terms_t8 then fails its assert(vnprp != NULL) (theorem
+    # rectangular_s_reaches_assert_refuted); replayed here on the library
+    text = ("new 0 0 2 2 1 %s\nscalar 0 0x1.3333333333333p-2 0x0p+0\nscalar 1 0x1.999999999999ap-3 0x0p+0\n"
+            "add 0 mm m 0 0 2 2 0x1p-1 0x0p+0 0x1p-3 0x0p+0 0x1p-3 0x0p+0 0x1p-2 0x0p+0 2 1 p0 p1 1 1 2\nhash 0\n"
+            % calcore.hx(1e9))
+    rc, out, err = calcore.run_script(ctx, exe, text)
+    ctx.count(("directed", "rectangular-S"))
+    if rc != 0 and "Assertion" in err and "build_terms_t8" in err:
+        ctx.violation({"kind": "abort", "function": "build_terms_t8", "case": "T8 2x2, S 2x1, port map {1,2}"},
+                      "vnacal_new_add_mapped_matrix_m on a T8 2x2 calibration with a 2x1 S matrix and port map {1,2} passes "
+                      "every argument check and then aborts in build_terms_t8: assert(vnprp != NULL)",
+                      {"script": text, "stderr": err[-1500:], "expected": "EINVAL or an accepted standard, never abort()",
+                       "model": "AddModel.add_common = Aborts 11 (Properties_C01.rectangular_s_reaches_assert_refuted)"})
+    elif rc != 0:
+        sig = vplib.asan_signature(err) or {"kind": "fault", "error": "exit %d" % rc, "function": None}
+        bad.append((sig, "T8 2x2 with a 2x1 S matrix: " + err.strip().split("\n")[0][:200], text, err))
     ctx.obligation("tie:directed NULL-port-map / ledger cases", not bad, bad[0][1] if bad else "")
     for sig, what, text, err in bad:
         ctx.violation(sig, what, {"script": text[:100000], "stderr": err[-3000:]})
@@ -204,6 +221,7 @@ def layout_part(ctx):
         text, info = T5.generate(src)
         ctx.obligation("T5:translate", True)
         ctx.write_if_changed(os.path.join(GEN, "LayoutGen.v"), text)
+        ctx.coq_make(["Gen/LayoutGen.vo"])          # the validation below evaluates the regenerated file
     except T5.TranslateError as e:
         ctx.obligation("T5:translate", False, str(e))
         ctx.log("T5: source no longer matches the accepted idiom:", e)
